@@ -438,6 +438,73 @@ REFERENCE = {
 }
 
 
+def _mode_feasible_blocks(body, mode_idx):
+    """blocks of `body` that can execute when the encoder's mode enum has discriminant `mode_idx`: switches on the mode
+    follow that arm only; bool locals assigned constants (e.g. by `matches!(self, Mode::X)`), their negations and copies are
+    propagated to the switches that test them"""
+    from ..flow import switch_subject as _ss
+
+    def is_mode_switch(sw):
+        subj = _ss(body, sw)
+        return bool(subj and subj[1] and "EncodingType" in place_ty_of(body, subj[0]))
+
+    sw_at = {sw.bb: sw for sw in switch_sites(body)}
+    env_in = {0: {}}
+    work = [0]
+    seen = set()
+    while work:
+        bb = work.pop()
+        env = dict(env_in.get(bb, {}))
+        for st in body.blocks[bb]["stmts"]:
+            if st["k"] != "assign" or st["dst"]["p"] or body.local_ty(st["dst"]["l"]) != "bool":
+                continue
+            rv = st["rv"]
+            val = None
+            if rv["k"] == "use":
+                k = op_const(rv["ops"][0])
+                if k is not None and "bool" in k:
+                    val = k["bool"]
+                else:
+                    q = op_place(rv["ops"][0])
+                    if q is not None and not q["p"]:
+                        val = env.get(q["l"])
+            elif rv["k"] == "unop" and rv["op"] == "Not":
+                q = op_place(rv["ops"][0])
+                if q is not None and not q["p"] and env.get(q["l"]) is not None:
+                    val = not env[q["l"]]
+            env[st["dst"]["l"]] = val
+        succs = list(body.succ[bb])
+        if bb in sw_at:
+            sw = sw_at[bb]
+            t = sw.node
+            if is_mode_switch(sw):
+                tg = [tb for v, tb in t["targets"] if v == mode_idx]
+                succs = tg or [t["otherwise"]]
+            else:
+                p = op_place(t["discr"])
+                if p is not None and not p["p"] and body.local_ty(p["l"]) == "bool" and env.get(p["l"]) is not None:
+                    v = env[p["l"]]
+                    zero = [tb for x, tb in t["targets"] if x == "0"]
+                    one = [tb for x, tb in t["targets"] if x == "1"]
+                    succs = (one or [t["otherwise"]]) if v else (zero or succs)
+        for sc in succs:
+            old = env_in.get(sc)
+            if old is None:
+                env_in[sc] = dict(env)
+                work.append(sc)
+            else:
+                merged = {k: (old[k] if k in env and env[k] == old[k] else None) for k in old}
+                if merged != old or sc not in seen:
+                    env_in[sc] = merged
+                    if sc not in seen or merged != old:
+                        work.append(sc)
+            seen.add(sc)
+        seen.add(bb)
+        if len(seen) > 5000:
+            break
+    return set(env_in)
+
+
 def place_ty_of(body, place):
     from .satlayer import place_ty
 
@@ -480,27 +547,25 @@ def rule_clause_templates(ctx):
             from .cli import arm_regions
 
             roots = []
-            mode_sw = None
+            mode_bodies = {}
+            adt_path = None
             for y in sorted(prog.reachable_from([mb], virtual_dispatch=False).values(), key=lambda z: z.id):
                 if not (y.path.startswith("encodings::") or "<encodings::" in y.path.split(" as ")[0]):
                     continue
                 for sw in switch_sites(y):
                     subj = switch_subject(y, sw)
                     if subj and subj[1] and "EncodingType" in place_ty_of(y, subj[0]):
-                        mode_sw = (y, sw, place_ty_of(y, subj[0]).replace("&", "").strip())
-            if mode_sw is None:
+                        mode_bodies[y.id] = y
+                        adt_path = place_ty_of(y, subj[0]).replace("&", "").strip()
+            if not mode_bodies:
                 roots.append((None, {}))
             else:
-                y, sw, adt_path = mode_sw
                 adt = prog.adt(adt_path)
-                idx = {str(v["idx"]): v["name"] for v in adt["variants"]} if adt else {}
-                regions = arm_regions(y, sw)
-                for val, (bb, blocks) in sorted(regions.items()):
-                    others = set()
-                    for v2, (bb2, blocks2) in regions.items():
-                        if v2 != val:
-                            others |= {bb2} | blocks2
-                    roots.append((idx.get(val, val), {y.id: others - ({bb} | blocks)}))
+                for v in (adt["variants"] if adt else []):
+                    excl = {}
+                    for yid, y in mode_bodies.items():
+                        excl[yid] = set(y.reachable) - _mode_feasible_blocks(y, str(v["idx"]))
+                    roots.append((v["name"], excl))
             for vname, rs in roots:
                 key = (fam, vname, with_range)
                 want = REFERENCE.get(key)
